@@ -36,7 +36,7 @@ var propPlans = []propPlan{
 		NotDecided: "the relation between two successive responses (a history property) beyond the per-step invariants; arithmetic on runtime counters.",
 		LevelText:  "Per-step inductive invariants of the window and its counters are decided on every path of the rotation functions."},
 	{ID: "C05", Title: "Advertised URIs are fetchable, immutable, consistent",
-		Rules:      []string{"CG0", "P1", "P2", "P3", "P3b", "P4", "P5", "P6", "F2", "F15", "T7", "T7b", "T7c", "T7e", "G3", "T7f", "T7g", "V4g", "P3c", "T7m", "T7n", "L4", "F26b", "P7", "P5b", "F34", "T7q", "F44", "P5c", "T7t", "P8", "G18", "P3g", "P8b", "L9", "P3h", "P9", "F2c", "T7d", "T7p", "T7v"},
+		Rules:      []string{"CG0", "P1", "P2", "P3", "P3b", "P4", "P5", "P6", "F2", "F15", "T7", "T7b", "T7c", "T7e", "G3", "T7f", "T7g", "V4g", "P3c", "T7m", "T7n", "L4", "F26b", "P7", "P5b", "F34", "T7q", "F44", "P5c", "T7t", "P8", "G18", "P3g", "P8b", "L9", "P3h", "P9", "F2c", "T7d", "T7p", "T7v", "P3j"},
 		NotDecided: "byte equality of a segment and its concatenated parts on disk (offset arithmetic); HTTP semantics outside the handlers.",
 		LevelText:  "Publication protocol: final before published, never written afterwards without the reader's lock, listed = registered, unregistered on expiry, response shape."},
 	{ID: "C06", Title: "Blocking reload, preload hints, delta updates",
@@ -89,7 +89,7 @@ var propPlans = []propPlan{
 		NotDecided: "byte-for-byte equivalence, offsets, reader cursor logic.",
 		LevelText:  "Thin: no read before Finalize in both backends, mirror writer forwards identically, disk part windows and offsets, reader progress (no (0, nil) without a full destination), Remove removes what Create created and does nothing else (no store, no truncation), a slice is clamped to the bound its length was tested against."},
 	{ID: "C18", Title: "Bounded retention",
-		Rules:      []string{"CG0", "G2", "G3", "P3", "P6", "P3c", "G17", "P3e", "K5p", "F33", "G2b", "P5c", "P6b", "P3g", "P3h", "P3i", "G2c", "L5c"},
+		Rules:      []string{"CG0", "G2", "G3", "P3", "P6", "P3c", "G17", "P3e", "K5p", "F33", "G2b", "P5c", "P6b", "P3g", "P3h", "P3i", "G2c", "L5c", "P3j"},
 		NotDecided: "byte totals per segment.",
 		LevelText:  "Size check before buffering; the window head is dropped whenever the window is over its bound, with its path, its part paths and its file; files released."},
 	{ID: "C19", Title: "LL-HLS parts are regular",
